@@ -132,6 +132,7 @@ Definition exec_state (s : state) (e : env) (t : otx) (o : oracle) : state :=
   add_pool s5 (t_price t * (g - gf)).
 
 Definition passes (s : state) (e : env) (t : otx) : Prop :=
+  validate s (e_min_fee e) t = true /\
   e_dup e = false /\
   nonce_of s (t_from t) = t_nonce t /\
   e_sender_code e = false /\
@@ -145,9 +146,9 @@ Definition well_formed (e : env) (t : otx) (o : oracle) : Prop :=
   oracle_ok t o.
 
 Ltac notpass Eig :=
-  let P1 := fresh in let P2 := fresh in let P3 := fresh in let P4 := fresh in let P5 := fresh in
+  let P0 := fresh in let P1 := fresh in let P2 := fresh in let P3 := fresh in let P4 := fresh in let P5 := fresh in
   let ig' := fresh "ig" in let P6 := fresh in let P7 := fresh in let P8 := fresh in
-  intros (P1 & P2 & P3 & P4 & P5 & ig' & P6 & P7 & P8);
+  intros (P0 & P1 & P2 & P3 & P4 & P5 & ig' & P6 & P7 & P8);
   try congruence; try lia;
   try (rewrite Eig in P6; first [discriminate | injection P6 as <-; lia]).
 
@@ -165,6 +166,8 @@ Proof.
   intros (Hbg & Hgas & Hnz & Hz & Hor & Href).
   unfold deliver_olvm.
   destruct (e_dup e) eqn:Edup; [left; simpl; repeat split; auto; notpass Edup|].
+  destruct (validate s (e_min_fee e) t) eqn:Eval; simpl negb; cbv iota;
+    [|left; simpl; repeat split; auto; notpass Eval].
   unfold handler, transition.
   rewrite !evm_nonce_eq, !evm_view_eq.
   destruct (nonce_of s (t_from t) <? t_nonce t) eqn:E0; [left; simpl; repeat split; auto; notpass E0|].
@@ -215,6 +218,7 @@ Lemma not_executed_unchanged s e t o :
 Proof.
   intros H. unfold deliver_olvm in *.
   destruct (e_dup e); [reflexivity|].
+  destruct (negb (validate s (e_min_fee e) t)); [reflexivity|].
   destruct (handler s e t o) as [[ok gu] s1].
   destruct (contract_fee s1 t gu) as [fee_ok s2].
   destruct (ok && fee_ok); simpl in *; [|reflexivity].
@@ -417,7 +421,7 @@ Proof.
   destruct (deliver_olvm_cases s e t o Hwf) as [(Hs & [Ho|Ho] & _)|(Hp & _)].
   - rewrite Hd in Ho. discriminate.
   - rewrite Hd in Ho. discriminate.
-  - destruct Hp as (_ & Hn & _). lia.
+  - destruct Hp as (_ & _ & Hn & _). lia.
 Qed.
 
 (* a transaction whose nonce is not the account's nonce is never executed, whatever its
@@ -430,7 +434,7 @@ Proof.
   destruct (deliver_olvm_cases s e t o Hwf) as [(Hs & [Ho|Ho] & _)|(Hp & _)].
   - rewrite Ho in H. discriminate.
   - rewrite Ho in H. discriminate.
-  - destruct Hp as (_ & Hn & _). contradiction.
+  - destruct Hp as (_ & _ & Hn & _). contradiction.
 Qed.
 
 (* an executed transaction can never execute again: the account nonce is then above its nonce *)
@@ -449,10 +453,33 @@ Proof.
   apply stale_nonce_not_executed; [exact Hwf2|lia].
 Qed.
 
-(* ---------- a transaction accepted by CheckTx on the same ledger, carrying exactly the
-   account's nonce, passes the pre-checks ---------- *)
-Lemma validated_executes s e t o min_fee :
-  well_formed e t o -> validate s min_fee t = true -> nonce_gap s t = false ->
+(* ---------- Validate and execution ---------- *)
+(* a transaction Validate refuses on the deliver state is not executed and changes nothing *)
+Lemma invalid_not_executed s e t o :
+  validate s (e_min_fee e) t = false ->
+  (deliver_olvm s e t o).2 = s /\
+  ((deliver_olvm s e t o).1 = NotExecuted \/ (deliver_olvm s e t o).1 = Duplicate).
+Proof.
+  intros Hv. unfold deliver_olvm. destruct (e_dup e); [simpl; auto|].
+  rewrite Hv. simpl. auto.
+Qed.
+
+(* every executed transaction passed Validate on the state it executed on *)
+Lemma executed_validated s e t o f used s' :
+  well_formed e t o -> deliver_olvm s e t o = (Executed f used, s') ->
+  validate s (e_min_fee e) t = true.
+Proof.
+  intros Hwf Hd.
+  destruct (deliver_olvm_cases s e t o Hwf) as [(Hs & [Ho|Ho] & _)|(Hp & _)].
+  - rewrite Hd in Ho. discriminate.
+  - rewrite Hd in Ho. discriminate.
+  - destruct Hp as (Hv & _). exact Hv.
+Qed.
+
+(* a transaction Validate accepts on a ledger (CheckTx and DeliverTx run the same function) and
+   that carries exactly the account's nonce passes every consensus pre-check on that ledger *)
+Lemma validated_executes s e t o :
+  well_formed e t o -> validate s (e_min_fee e) t = true -> nonce_gap s t = false ->
   e_dup e = false -> e_sender_code e = false -> gas_u64 t <= e_block_gas e ->
   exists f u, (deliver_olvm s e t o).1 = Executed f u.
 Proof.
@@ -460,6 +487,7 @@ Proof.
   destruct (deliver_olvm_cases s e t o Hwf) as [(_ & _ & Hnp)|(_ & _ & _ & Heq)].
   2:{ rewrite Heq. eauto. }
   exfalso. apply Hnp.
+  pose proof Hv as Hv0.
   unfold validate in Hv. unfold nonce_gap in Hgap. rewrite evm_nonce_eq in Hv, Hgap.
   unfold native_view in Hv.
   repeat (apply andb_prop in Hv; destruct Hv as [Hv ?]).
@@ -471,8 +499,9 @@ Proof.
 Qed.
 
 (* ---------- native SEND ---------- *)
-Lemma send_exact s t used s' :
-  deliver_send s t used = (true, s') ->
+Lemma send_exact s m t used s' :
+  deliver_send s m t used = (true, s') ->
+  send_validate m t = true /\
   pool s' = pool s + n_price t * used /\
   (forall a, balance s' a = balance s a
      + (if decide (a = n_from t) then - (n_amount t + n_price t * used) else 0)
@@ -480,30 +509,32 @@ Lemma send_exact s t used s' :
   (forall a, nonce_of s' a = nonce_of s a).
 Proof.
   unfold deliver_send.
+  destruct (send_validate m t); [|discriminate]. simpl negb. cbv iota.
   destruct (balance s (n_from t) <? n_amount t); [discriminate|].
   destruct (n_gas t <? used); [discriminate|].
   destruct (balance _ _ <? _); [discriminate|].
-  intros [= <-]. split; [reflexivity|]. split; [|reflexivity].
+  intros [= <-]. split; [reflexivity|]. split; [reflexivity|]. split; [|reflexivity].
   intros a. rewrite balance_add_pool.
   generalize (n_from t) as fr. generalize (n_to t) as r. intros r fr.
   rewrite !balance_add_bal.
   repeat destruct (decide _); subst; try congruence; lia.
 Qed.
 
-Lemma send_failed_unchanged s t used : (deliver_send s t used).1 = false -> (deliver_send s t used).2 = s.
+Lemma send_failed_unchanged s m t used : (deliver_send s m t used).1 = false -> (deliver_send s m t used).2 = s.
 Proof.
   unfold deliver_send.
+  destruct (negb (send_validate m t)); [reflexivity|].
   destruct (balance s (n_from t) <? n_amount t); [reflexivity|].
   destruct (n_gas t <? used); [reflexivity|].
   destruct (balance _ _ <? _); [reflexivity|]. simpl. discriminate.
 Qed.
 
-Lemma send_conservation s t used s' l :
-  deliver_send s t used = (true, s') -> NoDup l -> n_from t ∈ l -> n_to t ∈ l ->
+Lemma send_conservation s m t used s' l :
+  deliver_send s m t used = (true, s') -> NoDup l -> n_from t ∈ l -> n_to t ∈ l ->
   total_over s' l = total_over s l.
 Proof.
   intros Hd Hnd Hf Ht.
-  destruct (send_exact s t used s' Hd) as (Hpool & Hbal & _).
+  destruct (send_exact s m t used s' Hd) as (_ & Hpool & Hbal & _).
   rewrite !total_over_sum, Hpool, (sum_over_ext _ _ l Hbal), !sum_over_plus.
   rewrite (sum_over_indicator (n_from t) _ l Hnd), (sum_over_indicator (n_to t) _ l Hnd).
   destruct (decide (n_from t ∈ l)); [|contradiction].
